@@ -31,7 +31,7 @@ RULE = ("cases = (molecule|2-qubit Hamiltonian) x ansatz x mapping string (JW, B
         "prepared state has >= 2 basis amplitudes above 1e-6 (the energy is not a diagonal element of H) or the deflation "
         "increment exceeds 1e-6; distinct = distinct (configuration, variant, vector, deflation/operator)")
 ASSUMPTIONS = [
-    "only the catalogue is explored: H2, H3 (doublet, ROHF), H4, H4 with MOs 0 and 3 frozen, LiH with MOs 0 and 5 frozen (thorough), "
+    "only the catalogue is explored: H2, H3 (doublet, ROHF), H3+ (triplet, ROHF), H4, H4 with MOs 0 and 3 frozen, LiH with MOs 0 and 5 frozen (thorough), "
     "all sto-3g, and one 2-qubit Hamiltonian; parameter values outside the 5-vector alphabet are not explored",
     "design levels (bounds): 'A' = every (ref_state, penalty, projective) variant x every vector, deflation on every "
     "non-projective variant x vector; 'A-' = every variant, all vectors on the baseline variant and {dense, alternating} on the others; "
@@ -61,6 +61,10 @@ MOLS = {
                alt=[1, 0, 0, 1], orth=[0, 0, 1, 1], nq=4),
     "H3": dict(xyz=[("H", (0., 0., 0.)), ("H", (0., 0., 0.9)), ("H", (0., 0.3, 1.9))], q=0, spin=1, frozen="none",
                alt=[1, 0, 1, 1, 0, 0], orth=[1, 1, 0, 0, 1, 0], nq=6),
+    # H3+ in its triplet state: the only catalogue entry with active_spin = 2 (for a doublet the scBK tapering signs do not
+    # depend on the spin argument, so a wrong spin would be invisible on H3)
+    "H3t": dict(xyz=[("H", (0., 0., 0.)), ("H", (0., 0., 0.9)), ("H", (0., 0.3, 1.9))], q=1, spin=2, frozen="none",
+                alt=[1, 0, 0, 0, 1, 0], orth=[0, 0, 1, 0, 1, 0], nq=6),
     "H4": dict(xyz=[("H", (S2, 0., 0.)), ("H", (0., S2, 0.)), ("H", (-1.0071067811865476, 0., 0.)),
                     ("H", (0., -1.0071067811865476, 0.))], q=0, spin=0, frozen="none",
                alt=[1, 1, 1, 0, 0, 1, 0, 0], orth=[1, 1, 0, 0, 1, 1, 0, 0], nq=8),
@@ -82,6 +86,7 @@ PROJ_RESULT = "1"
 # rough cost of one Tangelo circuit simulation (s), only used to order shards (heaviest first)
 UNIT = {"H2": 0.03, "H4f": 0.03, "BARE": 0.01,
         "H3": {"UCCSD": 0.13, "UpCCGSD": 0.3, "UCCGD": 0.45, "VSQS": 0.7, "_": 0.05},
+        "H3t": {"UCCSD": 0.03, "UpCCGSD": 0.15, "UCCGD": 0.2, "VSQS": 0.7, "_": 0.04},
         "H4": {"UCCSD": 0.6, "UpCCGSD": 0.45, "UCCGD": 0.9, "VSQS": 0.8, "pUCCD": 0.01, "_": 0.07},
         "LiH": {"UCCSD": 0.3, "UpCCGSD": 0.45, "UCCGD": 0.9, "VSQS": 0.8, "pUCCD": 0.01, "_": 0.07}}
 LEVEL_UNITS = {"A": 540, "A-": 230, "B": 75, "C": 48}
@@ -111,6 +116,8 @@ def valid_config(mol, ans, mapping, utd):
         return ans in ("HEA", "USER") and mapping in ("JW", "BK")
     if ans in ("UCC1", "UCC3"):
         return mapping == "JW" and utd and MOLS[mol]["nq"] == 4
+    if mol == "H3t" and ans in ("QCC", "ILC"):
+        return False    # no candidate generators for the high-spin two-electron state: the ansatz declines ("DIS is empty")
     if ans == "pUCCD":
         # the mapping string is overridden by HCB: one representative string (+ a second one to show the override)
         return MOLS[mol]["spin"] == 0 and mapping in ("JW", "scBK")
@@ -119,23 +126,25 @@ def valid_config(mol, ans, mapping, utd):
 
 def level_of(tier, mol, ans, mapping):
     if tier == "quick":
-        return "C"
+        return "A" if mol == "BARE" else "C"
     nq = 2 if mol == "BARE" else MOLS[mol]["nq"]
     if nq <= 4:
         return "A"
-    if ans in HEAVY:
+    if unit_cost(mol, ans, "JW") >= 0.2:
         return "B"
     return "A-"
 
 
 def configs(tier):
     out = []
-    mols = ["H2", "H3", "H4", "BARE"] if tier == "quick" else ["H2", "H3", "H4", "H4f", "LiH", "BARE"]
+    mols = ["H2", "H3", "H3t", "H4", "BARE"] if tier == "quick" else ["H2", "H3", "H3t", "H4", "H4f", "LiH", "BARE"]
     for mol in mols:
         for ans in ANSATZE:
             if tier == "quick" and mol == "H4" and ans not in ("UCCSD", "UpCCGSD", "HEA", "QCC"):
                 continue
             if tier == "quick" and mol == "H3" and ans in ("UCCGD", "VSQS"):
+                continue
+            if tier == "quick" and mol == "H3t" and ans not in ("UCCSD", "HEA", "QMF", "USER"):
                 continue
             for mapping in MAPPINGS:
                 if mol in ("H4", "LiH") and ans in HEAVY and mapping == "SCBK":
@@ -184,7 +193,7 @@ def bounds(tier, seed):
 # ---------------------------------------------------------------------------------------------------------------------
 # design: which (variant, theta, deflation) combinations are run at each level
 
-def variants_for(level, is_mol):
+def variants_for(level, is_mol, ans=None):
     refs = ["none", "vec", "circ"]
     pens = [False, True] if is_mol else [False]
     projs = [False, True]
@@ -195,7 +204,8 @@ def variants_for(level, is_mol):
     if is_mol:
         out.append(dict(ref="none", pen=True, proj=False))
     out.append(dict(ref="none", pen=False, proj=True))
-    out.append(dict(ref="circ", pen=is_mol, proj=True))
+    # all-options corner (QMF/QCC/ILC document that they refuse a Circuit reference: use the occupation vector there)
+    out.append(dict(ref="vec" if ans in ("QMF", "QCC", "ILC") else "circ", pen=is_mol, proj=True))
     return out
 
 
@@ -359,6 +369,75 @@ def deflation_circuits(cfg, defl):
     return cs
 
 
+def circ_src(c):
+    gs = []
+    for g in c._gates:
+        a = [repr(g.name), repr(g.target[0] if len(g.target) == 1 else list(g.target))]
+        if g.control is not None:
+            a.append(f"control={list(g.control)!r}")
+        if g.parameter != "":
+            a.append(f"parameter={float(g.parameter)!r}")
+        if g.is_variational:
+            a.append("is_variational=True")
+        gs.append("Gate(" + ", ".join(a) + ")")
+    return "Circuit([" + ", ".join(gs) + f"], n_qubits={c.width})"
+
+
+def repro_script(cfg, v, g, seq, call, defl):
+    mol, ans, mapping, utd = cfg
+    opt = make_options(cfg, v, g, defl)
+    L = ["import warnings; warnings.filterwarnings('ignore')",
+         "from tangelo import SecondQuantizedMolecule",
+         "from tangelo.linq import Circuit, Gate",
+         "from tangelo.toolboxes.operators import QubitOperator",
+         "from tangelo.algorithms.variational import VQESolver, BuiltInAnsatze"]
+    items = []
+    if mol == "BARE":
+        H = opt["qubit_hamiltonian"]
+        L.append("H = " + " + ".join(f"QubitOperator({' '.join(p + str(q) for q, p in t)!r}, {float(np.real(c))!r})"
+                                     for t, c in H.terms.items()))
+        items.append('"qubit_hamiltonian": H')
+    else:
+        d = MOLS[mol]
+        fr = "" if d["frozen"] == "none" else f", frozen_orbitals={list(d['frozen'])!r}"
+        L.append(f"mol = SecondQuantizedMolecule({[(a, tuple(c)) for a, c in d['xyz']]!r}, q={d['q']}, spin={d['spin']}, "
+                 f"basis='sto-3g'{fr})")
+        items.append('"molecule": mol')
+    items.append('"ansatz": ' + (circ_src(opt["ansatz"]) if ans == "USER" else f"BuiltInAnsatze.{ans}"))
+    items.append(f'"qubit_mapping": {mapping!r}, "up_then_down": {utd}')
+    for k in ("ansatz_options", "penalty_terms", "simulate_options", "deflation_coeff"):
+        if k in opt:
+            items.append(f'"{k}": {opt[k]!r}')
+    if "ref_state" in opt:
+        r = opt["ref_state"]
+        items.append('"ref_state": ' + (repr(list(r)) if isinstance(r, list) else circ_src(r)))
+    if "projective_circuit" in opt:
+        items.append('"projective_circuit": ' + circ_src(opt["projective_circuit"]))
+    if "deflation_circuits" in opt:
+        items.append('"deflation_circuits": [' + ", ".join(circ_src(c) for c in opt["deflation_circuits"]) + "]")
+    L.append("s = VQESolver({" + ", ".join(items) + "})")
+    L.append("s.build()")
+    if seq:
+        L.append("n = len(s.initial_var_params)")
+        L.append(f"g = {g!r}")
+        L.append("import math")
+        L.append("vec = {'zero': [0.0]*n, 'equal': [g]*n, 'alt': [g*(-1)**i for i in range(n)], "
+                 "'onehot': [g*(i == n//2) for i in range(n)], "
+                 "'dense': [round(g*math.sin(1.7*i + 0.4) + 0.11*(i % 3) - 0.05, 9) for i in range(n)]}")
+        for t in seq[:-1]:
+            L.append(f"s.energy_estimation(vec[{t!r}])")
+        if call is None or call == "E":
+            L.append(f"print(s.energy_estimation(vec[{seq[-1]!r}]))")
+            if defl is not None and not v["proj"]:
+                L.append(f"s.deflation_circuits = []; print('without deflation:', s.energy_estimation(vec[{seq[-1]!r}]))")
+        else:
+            extra = ", ref_state=s.reference_circuit" if v["ref"] != "none" and ans not in ("QMF", "QCC", "ILC") else ""
+            if mol == "BARE":
+                extra += ", n_active_mos=1, n_active_electrons=1, n_active_sos=2, spin=1"
+            L.append(f"print(s.operator_expectation({call!r}, vec[{seq[-1]!r}]{extra}))")
+    return "\n".join(L)
+
+
 def documented_refusal(cfg, v):
     ans = cfg[1]
     if v["ref"] == "vec" and ans in ("UCC1", "UCC3", "VSQS"):
@@ -471,8 +550,15 @@ class Run:
             c.update(extra)
         nq = 2 if mol == "BARE" else MOLS[mol]["nq"]
         c["word"] = "x" * (nq * 4 + (v["ref"] != "none") * 3 + v["pen"] * 3 + v["proj"] * 3 + len(mapping)
-                           + (0 if tname in (None, "dense") else 1))
+                           + 2 * len(c.get("seq", [])))
         return c
+
+    def repro(self, v, seq=(), call=None, defl=None):
+        """Standalone reproduction (plain Tangelo calls) stored with each witness."""
+        try:
+            return repro_script(self.cfg, v, self.g, list(seq), call, defl)
+        except Exception as e:     # never let the pretty-printer disturb a verdict
+            return f"(no script: {e!r})"
 
     def bad(self, site, kind, sig, case, detail):
         self.acc.violation(f"{site}/{kind}/{sig}", case, detail, group=f"{site}/{kind}")
@@ -500,7 +586,7 @@ class Run:
             mp = cfg[2] if cfg[1] != "pUCCD" else "HCB"
             self.bad("build", f"exception-{exc_sig(e)}",
                      f"{cfg[1]},{mp},ref={v['ref']},pen={v['pen']}",
-                     self.case(v), {"error": repr(e)[:300], "non_default_options": nondef})
+                     self.case(v), {"error": repr(e)[:300], "non_default_options": nondef, "repro": self.repro(v, defl=defl)})
             return None
         if documented_refusal(cfg, v):
             acc.count("documented_refusal_but_built")
@@ -622,7 +708,7 @@ class Run:
                 kind = f"exception-{exc_sig(e)}" + ("-only-after-earlier-evaluations" if e0 is not None else "")
                 self.bad("energy_estimation", kind, f"{cfg[1]},{cfg[2]},theta={tname}", case,
                          {"error": repr(e)[:300], "evaluated_before_on_this_solver": st["seq"][:-1],
-                          "same_vector_on_fresh_solver": e0})
+                          "same_vector_on_fresh_solver": e0, "repro": self.repro(v, case["seq"], "E")})
                 if st2 is None:
                     return
                 st = st2
@@ -645,18 +731,19 @@ class Run:
             acc.out(round(float(np.real(e0)), 6))
             if not abs(e0 - e_ref) <= TOL_E:
                 self.bad("energy_estimation", "value-mismatch", sigkey(cfg, v), case,
-                         {"solver": e0, "reference": e_ref, "diff": abs(e0 - e_ref), "theta": theta[:12]})
+                         {"solver": e0, "reference": e_ref, "diff": abs(e0 - e_ref), "theta": theta[:12],
+                          "repro": self.repro(v, st["seq"], "E")})
             if info["lmin"] is not None:
                 acc.ev()
                 if not np.real(e0) >= info["lmin"] - TOL_VAR:
                     self.bad("energy_estimation", "below-lowest-eigenvalue", sigkey(cfg, v), case,
-                             {"solver": e0, "lambda_min": info["lmin"], "theta": theta[:12]})
+                             {"solver": e0, "lambda_min": info["lmin"], "theta": theta[:12], "repro": self.repro(v, st["seq"], "E")})
             if (tname == "zero" and is_baseline(v) and cfg[1] in HF_AT_ZERO and self.is_mol):
                 acc.ev()
                 emf = float(get_mol(cfg[0]).mf_energy)
                 if not abs(e0 - emf) <= TOL_HF:
                     self.bad("energy_estimation", "zero-vector-energy-differs-from-mean-field", sigkey(cfg), case,
-                             {"solver": e0, "pyscf_mean_field": emf, "diff": abs(e0 - emf)})
+                             {"solver": e0, "pyscf_mean_field": emf, "diff": abs(e0 - emf), "repro": self.repro(v, st["seq"], "E")})
             if self.focus is None:
                 acc.sample({"config": sigkey(cfg, v), "theta": tname, "energy": float(np.real(e0)), "reference": float(np.real(e_ref)),
                             "n_gates": len(solver.ansatz.circuit._gates), "basis_states_in_psi": big}, cap=2)
@@ -678,7 +765,8 @@ class Run:
                 except Exception as e:
                     acc.ev()
                     sig = "with-projective-circuit" if v["proj"] else f"no-projective,{sigkey(cfg, v)}"
-                    self.bad("energy_estimation(deflation)", f"exception-{exc_sig(e)}", sig, dcase, {"error": repr(e)[:300]})
+                    self.bad("energy_estimation(deflation)", f"exception-{exc_sig(e)}", sig, dcase,
+                             {"error": repr(e)[:300], "repro": self.repro(v, st["seq"], "E", defl)})
                     continue
                 finally:
                     solver.deflation_circuits = []
@@ -696,7 +784,8 @@ class Run:
                 acc.count("deflation_evaluations")
                 if not abs(inc - exp_inc) <= TOL_E:
                     self.bad("energy_estimation(deflation)", "increment-mismatch", f"{defl[0]},coeff={defl[1]},{sigkey(cfg, v)}",
-                             dcase, {"solver_increment": inc, "reference_increment": exp_inc, "overlaps": ovs, "coeff": defl[1]})
+                             dcase, {"solver_increment": inc, "reference_increment": exp_inc, "overlaps": ovs, "coeff": defl[1],
+                                     "plain_energy": e0, "repro": self.repro(v, st["seq"], "E", defl)})
             # ---- operator expectations ---------------------------------------------------------------------------------
             for op in OPS:
                 if only_ops is not None and op not in only_ops:
@@ -719,7 +808,8 @@ class Run:
                 restored = solver.qubit_hamiltonian is H_before and dict(solver.qubit_hamiltonian.terms) == info["H_terms"]
                 if not restored:
                     self.bad("operator_expectation", "hamiltonian-not-restored" + ("-after-exception" if err else ""),
-                             mp_sig + f",{cfg[1]}", ocase, {"error": repr(err)[:200] if err else None})
+                             mp_sig + f",{cfg[1]}", ocase, {"error": repr(err)[:200] if err else None,
+                                                            "repro": self.repro(v, st["seq"], op)})
                     solver.qubit_hamiltonian = H_before
                 stt, M = self.enc_matrix(solver, info, op)
                 if err is not None:
@@ -727,7 +817,7 @@ class Run:
                         acc.count("operator_not_encodable_by_mapping(both sides refuse)")
                         continue
                     self.bad("operator_expectation", f"exception-{exc_sig(err)}", mp_sig + ("" if self.is_mol else ",bare"), ocase,
-                             {"error": repr(err)[:300]})
+                             {"error": repr(err)[:300], "repro": self.repro(v, st["seq"], op)})
                     continue
                 if stt == "exc":
                     self.bad("operator_expectation", "answer-where-encoding-refuses", mp_sig, ocase, {"solver": val, "enc_error": M})
@@ -744,10 +834,10 @@ class Run:
                     acc.nt(("O", cfg, v, tname, op))
                 if not abs(val - ref_val) <= TOL_E:
                     self.bad("operator_expectation", "value-mismatch", mp_sig + f",{cfg[1]},{cfg[0]}", ocase,
-                             {"solver": val, "reference": ref_val, "diff": abs(val - ref_val)})
+                             {"solver": val, "reference": ref_val, "diff": abs(val - ref_val), "repro": self.repro(v, st["seq"], op)})
 
     def run(self):
-        for v in variants_for(self.level, self.is_mol):
+        for v in variants_for(self.level, self.is_mol, self.cfg[1]):
             self.run_variant(v)
 
 
